@@ -2,7 +2,37 @@
 // Generated .basm sources (gen.go); oracle = reference interpreter of the source text (ref.go);
 // system under test = pkg/basm driven exactly as cmd/basm drives it (asm.go), simulated by
 // bondmachine.VM under a protocol-abiding environment (gen.Runner). Value streams on the
-// external outputs are compared prefix-wise, timing-free.
+// external outputs are compared prefix-wise, timing-free; a lower bound on progress (the machine must
+// deliver what a rendezvous execution of the source delivers in Ticks/6 instruction rounds) catches
+// machines that hang or starve.
+//
+// Entries
+//
+//	TestProps/streams        main campaign
+//	TestProps/macro_shapes   odd macro shapes; "assembler error" is an accepted outcome for them
+//	TestKnown/entry_not_first    confirms D6   (signature D6:entry-ignored)
+//	TestKnown/macro_iomode_leak  confirms the shared-macro-lines defect (macro-lines-shared:iomode-leak)
+//	TestKnown/label_leak         confirms the label-leak defect (label-leak:trailing-label-captures-jump)
+//	TestHygiene              goroutines / opcode registry do not grow over many assemblies
+//	FuzzParseAssembly        native fuzzing of the text front end (thorough tier)
+//	TestInspect              triage aid (C05_REPLAY=<file> or C05_SRC=<file> C05_CFG=<cfg>)
+//
+// Recorded defects of the unchanged repository, excluded from the main campaign by construction (each
+// exclusion is counted; one minimal failing case each under /verif/replays/C05/known/):
+//
+//	D6  `entry <label>` is recorded (entrypoints.go:113 body meta "entry") and never used: execution starts
+//	    at ROM address 0 even when the entry label is not on the first instruction.
+//	macro-lines-shared:iomode-leak  expandMacro (macroresolver.go:73) returns the macro's own line objects;
+//	    metadataInfer (metadatainfer.go:111-157) writes the io mode of the section being processed on them,
+//	    so with one macro expanded in a sync and in an async section the section processed last (Go map
+//	    order: non-deterministic) decides whether `mov oK, rX` becomes r2owa or r2o in BOTH.
+//	label-leak  the line parser keeps a pending label across %endsection/%endmacro (asmparser.go:257-264,
+//	    isSymbolled is only cleared by the next instruction line), so a label after the last instruction of
+//	    a block is attached to the first line of the next block; macroResolver drops the use line together
+//	    with the label written on it (macroresolver.go:66). Together a jump can silently land in another
+//	    macro's expansion.
+//
+// Accepted refusals (counted as rejected:<class>): see mayReject and the mov-literal note in evalCase.
 package c05
 
 import (
@@ -38,13 +68,17 @@ type mode struct {
 	D6   bool // entry label not on the first instruction
 	Leak bool // a macro with mov-IO expanded in sections of different io modes
 	Fuzz bool // mutated text: the reference not reading it, or the assembler refusing it, is not judged
+	// LabelLeak: a label lost on a macro use (or before the entry directive) whose name is also written after
+	// the last instruction of some block
+	LabelLeak bool
 }
 
 var (
-	modeMain      = mode{}
-	modeKnownD6   = mode{D6: true}
-	modeKnownLeak = mode{Leak: true}
-	modeFuzz      = mode{Fuzz: true}
+	modeMain       = mode{}
+	modeKnownD6    = mode{D6: true}
+	modeKnownLeak  = mode{Leak: true}
+	modeFuzz       = mode{Fuzz: true}
+	modeKnownLeak2 = mode{LabelLeak: true}
 )
 
 // leakRepeats: the defect behind modeKnownLeak depends on the iteration order of a Go map inside the
@@ -211,16 +245,11 @@ func evalCase(c Case, m mode) (out pbt.Outcome) {
 		}
 	}
 	// `mov <reg>, <literal>` also matches the dynamically created rsets5/rsets6/rsets7 unless dynamical
-	// matching is disabled. Without a chooser the assembler asks for one ("a criteria is needed"); with
-	// -chooser-min-word-size every alternative is assembled first and the first one that cannot encode a
-	// literal aborts the whole run (creatorbm.go CodeChoice), so literals >= 32 are refused.
-	if rejectable == "" {
-		switch {
-		case c.Cfg == cfgDefault && feat["mov-literal"]:
-			rejectable = "mov-literal-without-chooser"
-		case (c.Cfg == cfgMinWord || c.Cfg == cfgMinSame || c.Cfg == cfgDefault) && feat["mov-literal>=32"]:
-			rejectable = "mov-literal>=32-with-chooser"
-		}
+	// matching is disabled. Without a chooser the assembler asks for one ("unable to choose the code among
+	// the alternatives, a criteria is needed"): a clean, explicit refusal. With -chooser-min-word-size the
+	// narrowest alternative that encodes every literal of the section is taken.
+	if rejectable == "" && c.Cfg == cfgDefault && feat["mov-literal"] {
+		rejectable = "mov-literal-without-chooser"
 	}
 	lab["cfg="+c.Cfg] = true
 	lab[fmt.Sprintf("rsize=%d", rs.Rsize)] = true
@@ -261,7 +290,23 @@ func evalCase(c Case, m mode) (out pbt.Outcome) {
 	if leak {
 		lab["macro:mov-io-in-sync-and-async-sections"] = true
 	}
+	labelLeak := false
+	for n := range rs.Lost {
+		if rs.Trailing[n] {
+			labelLeak = true
+		}
+	}
+	if labelLeak {
+		lab["label-leak-shape"] = true
+	}
 	switch {
+	case labelLeak && !m.LabelLeak && !m.Fuzz:
+		// a label after the last instruction of a block is carried by the line parser to the first line of the
+		// next block of the file; if that is a macro the label is defined wherever the macro is expanded, and a
+		// jump whose own label was lost (written on a macro use / before the entry directive) silently lands there
+		return pbt.Outcome{Excluded: "label-leak:trailing-label-captures-jump"}
+	case m.LabelLeak && !labelLeak:
+		return pbt.Outcome{Excluded: "no-label-leak-shape"}
 	case d6 && !m.D6:
 		return pbt.Outcome{Excluded: "D6:entry-not-first"}
 	case leak && !m.Leak:
@@ -277,6 +322,9 @@ func evalCase(c Case, m mode) (out pbt.Outcome) {
 	}
 	for rep := 0; rep < repeats; rep++ {
 		out = evalOnce(c, m, rs, net, lab, rejectable, d6, leak)
+		if out.Fail != nil && labelLeak && m.LabelLeak && (out.Fail.Sig == "stream-mismatch" || out.Fail.Sig == "stream-extra" || out.Fail.Sig == "starved") {
+			out.Fail.Sig = "label-leak:trailing-label-captures-jump"
+		}
 		if out.Fail != nil || out.Excluded != "" {
 			return out
 		}
@@ -395,7 +443,14 @@ func evalOnce(c Case, m mode, rs *refSource, net *refNet, lab map[string]bool, r
 	slow := net.run(c.In, c.Ticks/slowdown, 0, true)
 	for o := 0; o < net.NOut; o++ {
 		if len(sim[o]) < len(slow.Out[o]) {
-			return pbt.Outcome{Fail: pbt.Failf("starved", "output o%d: the machine delivered %d values in %d ticks, the source delivers %d in %d instruction rounds\n%s--- source ---\n%s",
+			sig := "starved"
+			switch {
+			case leak:
+				sig = "macro-lines-shared:iomode-leak"
+			case d6:
+				sig = "D6:entry-ignored"
+			}
+			return pbt.Outcome{Fail: pbt.Failf(sig, "output o%d: the machine delivered %d values in %d ticks, the source delivers %d in %d instruction rounds\n%s--- source ---\n%s",
 				o, len(sim[o]), c.Ticks, len(slow.Out[o]), c.Ticks/slowdown, describe(), c.Src)}
 		}
 		if len(slow.Out[o]) > 0 {
@@ -409,9 +464,10 @@ func evalOnce(c Case, m mode, rs *refSource, net *refNet, lab map[string]bool, r
 	return pbt.Outcome{NonTrivial: nt}
 }
 
-func propMain(c Case) pbt.Outcome      { return evalCase(c, modeMain) }
-func propKnownD6(c Case) pbt.Outcome   { return evalCase(c, modeKnownD6) }
-func propKnownLeak(c Case) pbt.Outcome { return evalCase(c, modeKnownLeak) }
+func propMain(c Case) pbt.Outcome           { return evalCase(c, modeMain) }
+func propKnownD6(c Case) pbt.Outcome        { return evalCase(c, modeKnownD6) }
+func propKnownLeak(c Case) pbt.Outcome      { return evalCase(c, modeKnownLeak) }
+func propKnownLabelLeak(c Case) pbt.Outcome { return evalCase(c, modeKnownLeak2) }
 
 const ruleCommon = "generated .basm sources: 1..3 romtext sections (entry directive, 1..3 labels per site, counter-bounded loops, conditional/unconditional forward skips, permuted block chains over j/jmp/jz with label operands; mov/rset/cpy/inc/dec/add/mult/clr/nop/noop; sync IO as mov or i2rw/r2owa, each IO followed by 3 non-IO instructions), literals in dec/0d/0u/0x/0b and sized notations, 0-argument macros, 1..3 CPs (sections shared or unused), fan-out 1 bonds CP-CP/BM-CP/CP-BM, registersize in {8,16,32,64}, layout noise (comments, blank lines, tabs, CRLF, meta order); oracle: value streams on every external output equal, prefix-wise, those of a reference interpreter of the text; non-trivial = the interpretation took >=1 backward and >=1 forward jump, executed >=1 pseudo-instruction and >=3 values were compared on some output"
 
@@ -428,6 +484,8 @@ var PropsKnown = []*pbt.Entry{
 		genSource(genOpts{Entry: 1, MaxCPs: 1}), propKnownD6),
 	pbt.Def("macro_iomode_leak", ruleCommon+"; one macro that outputs with `mov oK, rX` is expanded in the sync section a CP runs and in an async section: confirms the shared-macro-lines defect, expected to fail with signature macro-lines-shared:iomode-leak (each source is assembled up to 10 times: the defect depends on map iteration order)",
 		genSource(genOpts{Entry: 0, MaxCPs: 1, Leak: true}), propKnownLeak),
+	pbt.Def("label_leak", "a fixed skeleton with generated bodies: a section ends with label X after its last instruction, the next block of the file is a macro M; another section writes X directly on a use of macro N (that label is lost), uses M later and jumps to X: confirms that the jump silently lands on the expansion of M; expected to fail with signature label-leak:trailing-label-captures-jump",
+		genLabelLeak, propKnownLabelLeak),
 }
 
 func TestProps(t *testing.T) { pbt.RunAll(t, "C05", Props) }
